@@ -21,8 +21,8 @@ func init() {
 		Level: "model_checking",
 		Rule: "bounded-exhaustive: style strings = every sequence of <=3 (thorough 4) declarations over a declaration alphabet (allowed property with accepted / rejected value, disallowed property, vendor prefix, upper case, !important, comments, strings and url() containing ; and :, malformed tails, " +
 			"and an escape alphabet: \\72 ed, r\\65 d, r\\20 ed, \\000072ed, \\1F600, \\d800, \\5c 72, \\75rl(, trailing \\) joined by ';' / '; ', on four element classes, crossed with rule sets {global | element | element-pattern | two overlapping patterns} x {handler | enum | strict regexp | lenient regexp (accepts the empty string) | default handler | unknown property without matcher} x style attribute allowed or not through AllowAttrs, plus enum entries and property names spelled in mixed case; the element class varies fastest so that consecutive calls on one policy object mix classes. " +
-			"Oracle (soundness): the output style is split into declarations the way a browser does (quote / paren / escape aware); each property, lower-cased and de-prefixed, must be allowlisted for the element and lower(css-decode(value)) must be accepted by a matcher registered for it. " +
-			"Oracle (completeness, escape-free cleanly parseable inputs only): the surviving declarations are exactly the allowed ones in input order, an all-rejected style leaves no style attribute. non-trivial = at least one declaration was removed.",
+			"Oracle (soundness): the output style is split into declarations the way a browser does (quote / paren / escape aware, an unquoted url token - well formed or bad - ending at its first unescaped ')'); each property, ASCII-lower-cased and de-prefixed, must be allowlisted for the element and lower(css-decode(value)) must be accepted by a matcher registered for it. " +
+			"Oracle (completeness, escape-free cleanly parseable inputs only): the surviving declarations are exactly the allowed ones in input order, an all-rejected style leaves no style attribute; the same for every sequence <=2 of clean declarations written with CSS white space before it and after its final ';'. non-trivial = at least one declaration was removed.",
 		Assumptions: []string{
 			"CSS escapes are decoded per css-syntax-3 §4.3.7 by the harness's own decoder",
 			"default handlers are taken from css.GetDefaultHandler (their own soundness is C18's subject)",
